@@ -64,6 +64,75 @@ def extra_obligations(world, tier, seed):
     return gtypes_lemmas()
 
 
+COPY_CHECK = r'''
+import json
+from graphql import GraphQLSchema, build_schema, extend_schema, parse, validate_schema, lexicographic_sort_schema
+SDLS = [
+    "type Query { a: Int }",
+    "type Query { a: Int } type T",                                       # no fields
+    "type Query { a: Int } interface I { x: Int } type T implements I { y: Int }",
+    "type Query { __bad: Int }",
+    "type Query { a(x: T): Int } type T { f: Int }",                      # output type as argument
+    "input I { i: I! } type Query { a(x: I): Int }",                      # circular non-null
+    "union U type Query { u: U }",
+    "enum E type Query { e: E }",
+    "type Query { a: Int } type Mutation { m: Int } schema { query: Query mutation: Query }",
+    "type NoQuery { a: Int }",
+]
+bad = None
+for sdl in SDLS:
+    for order in ("validate-first", "copy-first"):
+        s = build_schema(sdl)
+        if order == "validate-first":
+            want = [e.message for e in validate_schema(s)]
+        copies = {"GraphQLSchema(**to_kwargs())": GraphQLSchema(**s.to_kwargs()),
+                  "extend_schema(+ type Extra)": None, "lexicographic_sort_schema": None}
+        try:
+            copies["lexicographic_sort_schema"] = lexicographic_sort_schema(s)
+        except Exception:
+            pass
+        if order == "copy-first":
+            want = [e.message for e in validate_schema(s)]
+        for how, c in copies.items():
+            if c is None:
+                continue
+            got = [e.message for e in validate_schema(c)]
+            if sorted(got) != sorted(want):
+                bad = {"sdl": sdl, "copy": how, "order": order,
+                       "observed": f"the copy validates with {got!r}, the original with {want!r}"}
+                break
+            if c.assume_valid != s.assume_valid:
+                bad = {"sdl": sdl, "copy": how, "observed": "assume_valid changed by copying"}
+                break
+        if bad:
+            break
+    if bad:
+        break
+print("COPY " + json.dumps(bad))
+'''
+
+
+def bounded_checks(tier, seed):
+    """Validation results are cached on the schema object and schemas are copied through to_kwargs()
+    (extend_schema, lexicographic_sort_schema, GraphQLSchema(**kwargs)): a copy must be validated like
+    the original - BOUNDED: 10 SDL schemas (valid and invalid in different ways), copied before and
+    after the original was validated."""
+    import json
+    rc, outp = run_native(COPY_CHECK)
+    res, ok = None, False
+    for line in outp.splitlines():
+        if line.startswith("COPY "):
+            res, ok = json.loads(line[5:]), True
+    if not ok:
+        raise RuntimeError(outp[-600:])
+    return [{"id": "C20/bounded/copies-validate-like-the-original",
+             "function": "GraphQLSchema.to_kwargs / validate_schema (cached _validation_errors, assume_valid)",
+             "tool": "validate_schema on copies vs the original, native",
+             "bound": "10 SDL schemas x copies via GraphQLSchema(**to_kwargs()) and lexicographic_sort_schema x "
+                      "copying before / after validating the original",
+             "failed": res is not None, "input": res, "output": outp[-1000:]}]
+
+
 def native_checks(tier, seed):
     out = []
     for name, code in WITNESSES.items():
